@@ -4,8 +4,8 @@ from ..sim import Monitor
 from .common import all_demes, flat
 
 PROP = "C05"
-N_QUICK = 3000
-N_THOROUGH = 60000
+N_QUICK = 8000
+N_THOROUGH = 200000
 RULE = ("Plans: every shipped GSC (metaepoch limit, both evaluation limits with all weightings, precision reached, root "
         "stopped, all stopped, no active non-root demes, DontRun) with parameters placed so that the condition turns "
         "true after an arbitrary generation of an arbitrary deme, plus the external stop signal fault (sticky true "
@@ -14,7 +14,8 @@ RULE = ("Plans: every shipped GSC (metaepoch limit, both evaluation limits with 
 NONTRIVIAL_RULE = "a first-true consult was observed and the wind-down after it was judged (or DontRun / metaepoch counter judged)"
 EXPECTED_PROBES = ["c05-first-true-at-gen", "c05-first-true-at-presprout", "c05-first-true-at-boundary",
                    "c05-first-true-mid-metaepoch-not-last-deme", "c05-winddown-judged", "c05-active-demes-wound-down",
-                   "c05-metaepoch-limit-exact", "c05-dontrun-judged", "c05-minimize-nit-judged", "c05-injected-first"]
+                   "c05-metaepoch-limit-exact", "c05-dontrun-judged", "c05-minimize-nit-judged", "c05-injected-first",
+                   "c05-gsc-verdict-vs-definition"]
 ASSUMPTIONS = ["an injected stop signal is sticky; a shipped GSC observed to flip back to false gets no wind-down verdict (counted as c05-flip)"]
 
 PROFILE = P.profile(p_stop_signal=0.5, gens=[1, 2, 3, 4], entry_w={"tree": 8, "hms": 1, "minimize": 1},
@@ -24,7 +25,14 @@ PROFILE = P.profile(p_stop_signal=0.5, gens=[1, 2, 3, 4], entry_w={"tree": 8, "h
 
 
 def gen(seed, tier):
-    return P.gen_plan(seed, PROFILE, PROP)
+    pl = P.gen_plan(seed, PROFILE, PROP)
+    g = pl.get("gsc")
+    if g and g["kind"] == "fitness_eval_limit" and seed % 2 == 0:
+        import random
+
+        r = random.Random(seed ^ 0xC05)
+        g["weights"] = [r.choice([1.0, 0.25, 0.5, 0.75, 1.5, 0.1]) for _ in pl["levels"]]
+    return pl
 
 
 class C05Monitor(Monitor):
@@ -46,10 +54,64 @@ class C05Monitor(Monitor):
         if self.t is not None and not self.flip:
             self.violate("sprout-after-stop", {"t_site": self.t["site"], "t_step": self.t["step"]})
 
+    def _reference_gsc(self, tree):
+        """The shipped GSC's verdict recomputed from its definition and the public state (None = not modelled)."""
+        w = self.w
+        g = w.plan.get("gsc")
+        if g is None and w.plan.get("entry") == "minimize":
+            m = w.plan["minimize"]
+            g = {"kind": "singular_eval_limit", "limit": m["maxfun"]} if m.get("maxfun") else (
+                {"kind": "metaepoch_limit", "limit": m["maxiter"]} if m.get("maxiter") is not None else
+                {"kind": "singular_eval_limit", "limit": 10000})
+        k = g["kind"]
+        demes = all_demes(tree)
+        if k == "metaepoch_limit":
+            return tree.metaepoch_count >= g["limit"]
+        if k == "singular_eval_limit":
+            return sum(d.n_evaluations for d in demes) >= g["limit"]
+        if k == "fitness_eval_limit":
+            wts = g.get("weights", "equal")
+            n = len(tree.levels)
+            if wts in ("equal", "default", None):
+                wts = [1] * n
+            elif wts == "root":
+                wts = [1] + [0] * (n - 1)
+            tot = 0
+            for d in demes:
+                tot += wts[d._level] * d.n_evaluations
+            return tot >= g["limit"]
+        if k == "precision":
+            for layer in w.stacks[int(g.get("stack", 0))]["layers"]:
+                if type(layer).__name__ == "PrecisionCutoffProblem":
+                    return bool(layer.hit_precision)
+            return None
+        if k == "root_stopped":
+            return not tree.root._active
+        if k == "all_stopped":
+            return not any(d._active for d in demes)
+        if k == "no_active_nonroot":
+            step = tree.metaepoch_count
+            for li in range(1, len(tree.levels)):
+                if len(tree.levels[li]) == 0:
+                    return False
+                for d in tree.levels[li]:
+                    if d._active or step <= d._started_at + (len(d._history) - 1) + g["n"]:
+                        return False
+            return True
+        if k == "dont_run":
+            return True
+        return None
+
     def on_consult(self, tree, site, deme, raw, verdict):
         w = self.w
         if not w.tree_ready:
             return
+        ref = self._reference_gsc(tree)
+        if ref is not None:
+            w.probe("c05-gsc-verdict-vs-definition")
+            if bool(ref) != bool(raw):
+                self.violate("gsc-verdict-differs-from-definition/" + str((w.plan.get("gsc") or {}).get("kind", "minimize")),
+                             {"returned": bool(raw), "definition": bool(ref), "site": site})
         if site == "gen" and deme is not None:
             self.step_consults[id(deme)] = self.step_consults.get(id(deme), 0) + 1
         if self.t is None:
